@@ -424,3 +424,4 @@ def run(ctx, prog, res):
     # R8 -------------------------------------------------------------------------------------
     import c02_arms
     c02_arms.run(ctx, prog, res, thorough=(ctx.tier == "thorough"))
+    c02_arms.run_years(ctx, prog, res, thorough=(ctx.tier == "thorough"))
